@@ -24,10 +24,33 @@ CLAIMS = {
     ),
 }
 
+CLAIMS['C01'] = dict(
+    text=('PARTIAL: the VM instruction-set kernel the translator compiles against is proved against the reference '
+          'operator definitions for all operands: + - * / %% on Int (exact mathematical result or a build error on '
+          'overflow / zero divisor, never a wrapped value), Float (operand order pinned, arithmetic uninterpreted), '
+          'string and list concatenation, and the stack discipline of each handler (left operand = top of stack, '
+          'everything below unchanged, nothing but the value stack modified). Not a whole-compiler correctness proof: '
+          'translator arm selection, calls, modules, copy, format, map/filter/reduce are not covered (see evidence not_covered).'),
+    design_ref='DESIGN.md §5 C01',
+    note=('Trusted: Verus/Z3; extraction rules listed in evidence; f64 arithmetic uninterpreted (R6); Rc/Vec/String models of vstd; '
+          'List values carry one position per element (requires); translator invariants (stack depth >= 2 at a binary op) are '
+          'caller obligations not discharged.'),
+    technique='Verus contracts on extracted VM arithmetic/handlers against spec-level operator semantics',
+)
+CLAIMS['C04'] = dict(
+    text=('PARTIAL: every extracted function under contract is proved free of arithmetic overflow, division by zero, '
+          'out-of-range index/cast, unwrap on None/Err, reachable panic!/unreachable! and non-termination, for all inputs '
+          'satisfying its stated precondition - in particular integer arithmetic on user values (VM add/sub/mul/div/modulus) '
+          'and the precedence parser (parse_op terminates, op_expression panic unreachable). The parser-combinator layer, type '
+          'checker, converters dependencies and stack depth are not covered.'),
+    design_ref='DESIGN.md §5 C04',
+    note=('Trusted: Verus/Z3; extraction rules listed in evidence; preconditions that are translator invariants (stack depth) are '
+          'listed as caller obligations, not discharged.'),
+    technique='Verus panic-freedom/termination obligations on every extracted function',
+)
+
 NOT_APPLICABLE = {
-    'C01': 'unit not completed yet (VM instruction kernel planned, DESIGN §5 C01)',
     'C03': 'unit not completed yet (Val->format value mappers planned, DESIGN §5 C03)',
-    'C04': 'unit not completed yet (panic-freedom of extracted functions planned, DESIGN §5 C04)',
     'C05': 'unit not completed yet (literal escaping round trip planned, DESIGN §5 C05)',
     'C06': 'unit not completed yet (run-time constraint check planned, DESIGN §5 C06)',
     'C07': 'relational completeness between the whole type checker and the whole evaluator; no per-function contract within reach of Verus/Kani states "accepts what runs" (DESIGN §5 C07)',
